@@ -1,5 +1,5 @@
 (* Model of utils/dedup: IntervalTrap (interval_trap.go), Limiter (limiter.go) and
-   RequestCache (request_cache.go), plus the error mapping of lib/blobrefresh/refresher.go.
+   RequestCache (request_cache.go).
    Executable definitions only; proofs live in Proof/C29*.v.
 
    Concurrency: each component is a transition system whose atomic steps are the code's lock
@@ -454,19 +454,6 @@ Fixpoint rmrun (cf : rcfg) (n : N) (s : rst) (ms : list rmac) : list (list rstat
   end.
 
 (* ====================================================================================== *)
-(* blobrefresh.Refresher.Refresh: mapping of RequestCache.Start results (refresher.go:127-136) *)
-(* ====================================================================================== *)
-Inductive fres := FNil | FPending | FNotFound | FBusy | FOther (e : N).
-(* e_nf = the id the driver gave backenderrors.ErrBlobNotFound *)
-Definition refresh_map (e_nf : N) (r : option rres) : fres :=
-  match r with
-  | None => FNil
-  | Some RPending => FPending
-  | Some RBusy => FBusy
-  | Some (RErr e) => if N.eqb e e_nf then FNotFound else FOther e
-  end.
-
-(* ====================================================================================== *)
 (* The property on one observed trace (independent of the models above)                   *)
 (* ====================================================================================== *)
 
@@ -531,6 +518,14 @@ Fixpoint rc_check_from (cf : rcfg) (now : N) (cache : N -> option (N * N)) (prev
   | _, _ => false
   end.
 
+(* every operation names a thread of the case *)
+Definition wf_rops (n : N) (ms : list rmac) : bool :=
+  forallb (fun m => match m with
+                    | QTick _ => true
+                    | QStart c _ => c <? n
+                    | QFinish c _ nx => (c <? n) && match nx with Some w => w <? n | None => true end
+                    end) ms.
+
 Definition rc_check (cf : rcfg) (n : N) (ms : list rmac) (obs : list (list rstatus)) : bool :=
   rc_check_from cf 0 (fun _ => None) (map (fun _ => QIdle) (nthreads n)) ms obs.
 
@@ -585,11 +580,5 @@ Fixpoint list_eqb {A : Type} (e : A -> A -> bool) (a b : list A) : bool :=
   match a, b with
   | [], [] => true
   | x :: a', y :: b' => e x y && list_eqb e a' b'
-  | _, _ => false
-  end.
-Definition fres_eqb (a b : fres) : bool :=
-  match a, b with
-  | FNil, FNil | FPending, FPending | FNotFound, FNotFound | FBusy, FBusy => true
-  | FOther x, FOther y => N.eqb x y
   | _, _ => false
   end.
